@@ -21,8 +21,17 @@ NONUM = 9999
 REL = 1e-12
 
 
+ZERO, NEG = -1000, -2000      # Optimizer.tla: codes of linear-space numbers that are not positive (Zero, Neg(e) = NEG - e)
+
+
 def p10(e):
-    return 10.0 ** int(e)
+    """The linear-space number of a code of the specification: e is 10^e, Zero is 0, Neg(e) is -10^e."""
+    e = int(e)
+    if e == ZERO:
+        return 0.0
+    if e < ZERO:
+        return -(10.0 ** (NEG - e))
+    return 10.0 ** e
 
 
 def build():
@@ -80,7 +89,8 @@ def build():
 
 
 def num(x):
-    """Two-way reading of a real number: {'i': n} if it is the integer n, {'p': k} if it is 10^k."""
+    """Two-way reading of a real number: {'i': n} if it is the integer n, {'p': k} if it is 10^k
+    (k = Zero if it is 0, k = Neg(j) if it is -10^j: the codes of Optimizer.tla)."""
     try:
         x = float(x)
     except Exception:
@@ -88,10 +98,12 @@ def num(x):
     i = p = NONUM
     if x == x and abs(x) < 1000 and abs(x - round(x)) <= REL * max(1.0, abs(x)):
         i = int(round(x))
-    if x == x and 0 < x < float('inf'):
-        k = int(round(math.log10(x)))
-        if abs(k) <= 60 and abs(x - 10.0 ** k) <= REL * 10.0 ** k:
-            p = k
+    if x == x and 0 < abs(x) < float('inf'):
+        k = int(round(math.log10(abs(x))))
+        if abs(k) <= 60 and abs(abs(x) - 10.0 ** k) <= REL * 10.0 ** k:
+            p = k if x > 0 else NEG - k
+    elif x == 0:
+        p = ZERO
     return dict(i=i, p=p)
 
 
@@ -143,10 +155,40 @@ class BadEvent(Exception):
     """An event the harness does not know (a mistake of the harness, never a verdict)."""
 
 
+def contents(seq):
+    """The numbers a caller's sequence holds now (nan for anything that is no number any more)."""
+    out = []
+    try:
+        for v in seq:
+            try:
+                out.append(float(v))
+            except Exception:
+                out.append(float('nan'))
+    except Exception:
+        return [float('nan')]
+    return out
+
+
 class Real:
     def __init__(self, opt, model, obs):
         self.opt, self.model, self.obs = opt, model, obs
         self.others0 = self.others()
+        self.last_vec = None        # the array object handed to the last update_model, and a private copy of
+        self.last_copy = []         # what the caller wrote into it
+        self.args_same = True       # every sequence handed to a call still holds what the caller wrote
+        self.args_why = ''
+
+    def hand(self, seq, kind):
+        """The caller's sequence (list / tuple / float64 ndarray) and a private copy of its contents."""
+        c = container(seq, kind)
+        return c, [float(v) for v in seq]
+
+    def check_arg(self, what, c, copy):
+        """Exact comparison: a call only reads the sequences it is handed."""
+        now = contents(c)
+        if now != copy:
+            self.args_same = False
+            self.args_why = '%s: the caller wrote %r, the sequence holds %r after the call' % (what, copy, now)
 
     def getter(self, p):
         d = self.model.fittingParameters if p in self.model.fittingParameters else self.obs.fittingParameters
@@ -171,12 +213,13 @@ class Real:
                 o.disable_fit(ev['p'])
             elif op == 'set_mode':
                 o.set_mode(ev['p'], spell(ev.get('m', 'linear'), ev.get('cs')))
-            elif op == 'set_boundary':
+            elif op in ('set_boundary', 'set_factor_boundary'):
                 x = ev.get('x', [0, 1])
-                o.set_boundary(ev['p'], container((p10(x[0]), p10(x[1])), ev.get('c', 'tuple')))
-            elif op == 'set_factor_boundary':
-                x = ev.get('x', [0, 1])
-                o.set_factor_boundary(ev['p'], container((p10(x[0]), p10(x[1])), ev.get('c', 'tuple')))
+                pair, copy = self.hand((p10(x[0]), p10(x[1])), ev.get('c', 'tuple'))
+                try:
+                    getattr(o, op)(ev['p'], pair)
+                finally:
+                    self.check_arg(op, pair, copy)
             elif op == 'set_prior':
                 o.set_prior(ev['p'], make_prior(ev.get('pr', dict(kind='Uniform', a=0, b=1))))
             elif op == 'enable_derived':
@@ -191,8 +234,13 @@ class Real:
                 if psp is None:
                     psp = ['log' if q.priorMode is PriorMode.LOG else 'linear' for q in o.fitting_priors]
                 vec = [float(k) if i < len(psp) and psp[i] == 'log' else p10(k) for i, k in enumerate(ev['x'])]
-                vec = container(vec, ev.get('c', 'list'))
-                o.update_model(vec)
+                self.last_vec, self.last_copy = self.hand(vec, ev.get('c', 'list'))
+                o.update_model(self.last_vec)
+            elif op == 'update_same':
+                # the very object of the previous update_model (a trace row written in a second sweep)
+                if self.last_vec is None:
+                    raise BadEvent('update_same without a previous update_model')
+                o.update_model(self.last_vec)
             elif op == 'write_back':
                 o.update_model(o.fit_values)
             else:
@@ -243,6 +291,11 @@ class Real:
             out['others_same'] = (self.others() == self.others0)
         except Exception:
             out['others_same'] = False
+        # the array of the last update_model as the caller sees it now, and "no argument was written to"
+        out['arg'] = contents(self.last_vec) if self.last_vec is not None else []
+        if self.last_vec is not None:
+            self.check_arg('update_model', self.last_vec, self.last_copy)
+        out['args_same'], out['args_why'] = self.args_same, self.args_why
         return out
 
 
@@ -250,8 +303,10 @@ def encode(post):
     """Projection with every number in the two-way reading, for Trace_Optimizer.tla."""
     fit = [dict(n=f['n'], nsp=f['nsp'], v=num(f['v']), lo=num(f['lo']), hi=num(f['hi']), pk=f['pk'],
                 psp=f['psp'], pa=num(f['pa']), pb=num(f['pb'])) for f in post['fit']]
+    # (a setter's pair that was written to: one entry too many, which the trace specification rejects)
+    arg = [num(v) for v in post.get('arg', [])] + ([] if post.get('args_same', True) else [num(float('nan'))])
     return dict(err=post['err'], ok=post['ok'], fit=fit, der=post['der'],
-                val={p: num(v) for p, v in post['val'].items()})
+                val={p: num(v) for p, v in post['val'].items()}, arg=arg)
 
 
 def spec_number(sp, e):
@@ -279,6 +334,23 @@ def consistent(got):
     return None, ''
 
 
+def argument_kept(exp, got):
+    """The sequences handed to the calls still hold what the caller wrote: the array of the last update_model is the
+    specification's arg (entry = the number (sp0, e)), a boundary / factor pair is compared with a private copy."""
+    if not got.get('args_same', True):
+        return got['args_why']
+    want = exp.get('arg')
+    if want is None:
+        return ''
+    if len(want) != len(got['arg']):
+        return 'array of the last update_model: %d entries expected, %r read' % (len(want), got['arg'])
+    for i, (w, g) in enumerate(zip(want, got['arg'])):
+        if w['sp'] != w['sp0'] or not same(g, spec_number(w['sp0'], w['e']), w['sp0']):
+            return 'entry %d of the array handed to update_model: the caller wrote %r, it holds %r' % (
+                i, spec_number(w['sp0'], w['e']), g)
+    return ''
+
+
 def compare(exp, got, full=True):
     """First clause on which the real projection differs from the spec's (None if none).
     full: the call is compile_params / update_model / write_back, after which the reported set-up must be
@@ -286,6 +358,9 @@ def compare(exp, got, full=True):
     if bool(exp['err']) != got['err']:
         return ('unknown_is_error' if exp['err'] else 'known_is_accepted'), \
             'expected raised=%s got raised=%s' % (exp['err'], got['err'])
+    bad = argument_kept(exp, got)
+    if bad:
+        return 'argument_untouched', bad
     if not got['ok']:
         return 'views_readable', got['why']
     if not full:
